@@ -12,7 +12,8 @@ EXPLANATION = ("A relation between two runs is not statically decidable; decided
                "pulls from the trader on the path with the same other conditions; R13.2 native terminal paths of those replies pass the "
                "exact-match check on the updated record, the check accepts equality only, SentFunds is created only by OpenPosition "
                "with required = 0 and re-stored unchanged-asset by the reversal."
-               " R13.6 every fee message of an Open/Close chain has a non-zero amount by a path fact; R13.5 (second kind) no step makes balance-sized payouts on paths that all forward attached fee coins in the same response.")
+               " R13.6 every fee message of an Open/Close chain has a non-zero amount by a path fact; R13.5 (second kind) no step makes balance-sized payouts on paths that all forward attached fee coins in the same response."
+               " R13.7 the top-up sizing is payout - (balance + the figure handed over), nothing collateral-kind dependent.")
 NOT_DECIDED = "equality of the two runs' outcomes as such (a 2-run relation); bank vs cw20 failure modes (allowance, balance)."
 
 
